@@ -1,6 +1,28 @@
 //! vmc <PROPERTY> <quick|thorough> [--replay FILE]
 mod c03;
 mod c04;
+mod c11;
+mod c07;
+mod c08;
+mod c09;
+mod c10;
+mod c12;
+mod c13;
+mod c14;
+mod c15;
+mod c16;
+mod c17;
+mod c18;
+mod c19;
+mod c20;
+mod c21;
+mod c22;
+mod c23;
+mod c24;
+mod c25;
+mod c26;
+mod c29;
+mod c30;
 mod schedmc;
 
 use vcore::ev::Tier;
@@ -38,6 +60,28 @@ fn main() {
     "C03" => c03::run(&ctx),
     "C04" => c04::run(&ctx),
     "C05" | "C06" => schedmc::run(&ctx, prop),
+    "C11" => c11::run(&ctx),
+    "C07" => c07::run(&ctx),
+    "C08" => c08::run(&ctx),
+    "C09" => c09::run(&ctx),
+    "C10" => c10::run(&ctx),
+    "C12" => c12::run(&ctx),
+    "C13" => c13::run(&ctx),
+    "C14" => c14::run(&ctx),
+    "C15" => c15::run(&ctx),
+    "C16" => c16::run(&ctx),
+    "C17" => c17::run(&ctx),
+    "C18" => c18::run(&ctx),
+    "C19" => c19::run(&ctx),
+    "C20" => c20::run(&ctx),
+    "C21" => c21::run(&ctx),
+    "C22" => c22::run(&ctx),
+    "C23" => c23::run(&ctx),
+    "C24" => c24::run(&ctx),
+    "C25" => c25::run(&ctx),
+    "C26" => c26::run(&ctx),
+    "C29" => c29::run(&ctx),
+    "C30" => c30::run(&ctx),
     _ => {
       eprintln!("unknown property {prop}");
       2
